@@ -22,6 +22,12 @@ theorem declared_pipeline :
     Generated.cliReduction = "max" ∧ Generated.cliUnrecognised = [] := by
   decide
 
+/-- the order `.max()` uses: both state types compare their scores as floating-point numbers
+(`s.partial_cmp(&o)`), `Ord::cmp` is that comparison unwrapped — the model's `maxRight` -/
+theorem declared_ordering :
+    Generated.stateOrderByScore = [("PackedState", true), ("PotentialState", true)] :=
+  rfl
+
 /-- every table entry is labelled with the name it is looked up by, and `Wallpaper::new` copies
 name and family (after the `fix:` for p1g1) -/
 theorem label_faithful :
